@@ -230,7 +230,7 @@ def run_check(prop, tier, spec, nworkers=None, runs=None, budget_s=None, quiet=F
     # ---- violations: confirm, minimise, write replay files ---------------
     new_violations = []
     known_lines = []
-    replay_dir = replay_dir or os.path.join(VERIF_ROOT, "replays")
+    replay_dir = replay_dir or os.environ.get("VERIF_REPLAY_DIR") or os.path.join(VERIF_ROOT, "replays")
     os.makedirs(replay_dir, exist_ok=True)
     min_budget = tcfg.get("minimise_s", 20)
     keys = sorted(viol_by_key, key=lambda k: (match_finding(findings, prop, k) is not None, k))
